@@ -1,6 +1,7 @@
 /-
   C04 — Every analytic gradient is the derivative of the value it accompanies.
-  Property theorems only (helpers: Proofs/C04Radial, C04Lists, C04Kernel, C04Chain, C04Gauss, C04Jacobi, C04Symm).
+  Property theorems only (helpers: Proofs/C04Radial, C04Lists, C04Kernel, C04Chain, C04Gauss, C04Jacobi, C04Symm,
+  C04Compose; section 9 also uses Properties/C02 and, through it, Properties/C03).
 
   All statements are over ℝ (the `Arith ℝ` instance of the SAME definitions the driver runs on `Float`):
   Model/Kernels.lean (values) and Model/C04.lean (gradients).  "Along coordinate j" is expressed with
@@ -583,12 +584,20 @@ open scoped Matrix
         column rank                                                                  `loglik_grad_hyp_of_posDef`
       * one observation, written with scalars (kept from before)                     `loglik_grad_partial`
       * the log-domain factor                                                        `log_domain_chain`
+      * (section 9) the abstract family instantiated: for every radial kernel, `build_kernel_hparam_grad_tensor`
+        slice by slice IS the entry-wise derivative `K'` of `build_kernel_matrix(X, noise)` for the whole matrix at once
+        (process variance, each length scale, and the nugget `K + t·I` with `K' = I`), the matrix is positive definite
+        for noise > 0 (C02 / C03), and so the matrix-form statements hold for the CONCRETE kernel family with no
+        hypothesis left but the parameter ranges and full column rank of `P`
+                        `kernel_matrix_grad_alpha/_length/_nugget`, `kernel_matrix_posDef`, `loglik_grad_radial_*`
 
     NOT PROVED here (remains a numerical comparison, model vs library vs finite differences, on every run):
       * that the library's `K_inv_demeaned_y`, `K_chol`, `cho_solve(K_chol, dK)` ARE the exact `a`, `L`, `K⁻¹dK`
         (floating-point Cholesky / triangular solves; conditioning enters the tolerance);
-      * that `build_kernel_hparam_grad_tensor` is the entry-wise derivative `K'` of `build_kernel_matrix` for the whole
-        matrix at once — entry by entry this is `kernel_hparam_grad` (section 2) plus the noise / auto-noise diagonal;
+      * the composition of section 9 for the MULTITASK tensor kernel (section 2 gives its entry-wise derivatives,
+        C02 `multitask_*` its positive definiteness; the instantiation is not written out), and the list-model forms
+        (`loglik_grad_zero_mean`, `loglik_grad_poly_mean`, `…_log`) for the concrete family: they still take the Cholesky
+        factor `L t` of `K t` as a hypothesis (`hchol`);
       * the floating-point model of the gradient (`Float` instance) — only the ℝ instance is differentiated. -/
 
 /-- **Jacobi's formula**, every n: `d det K = tr(adj(K)·dK)` -/
@@ -879,6 +888,33 @@ theorem loglik_grad_radial_length (k : Kind) (hk : differentiable k = true) {n d
   have hpd := kernel_matrix_posDef k ha (Function.update l c θ) x hν
   loglik_grad_matrix (K := fun t => radialNoisy k alpha (Function.update l c t) x ν)
     (kernel_matrix_grad_length k hk alpha l x ν c hθ) hpd.det_pos (isSymm_of_posDef hpd) s r
+
+/-- non-vacuity of `loglik_grad_radial_length`: square-exponential kernel, process variance 1, points 0 and 1 on the
+    line, noise 1/10, the single length scale moving: `K(t) = [[11/10, e^{-(1/t)²/2}], [e^{-(1/t)²/2}, 11/10]]`,
+    `K' = [[0, e^{-1/2}], [e^{-1/2}, 0]]` (`= e^{-r²/2}·diff²/l³` at `l = 1`), at θ = 1 -/
+example (s : ℝ) (r : Fin 2 → ℝ) :
+    let K : ℝ → Matrix (Fin 2) (Fin 2) ℝ := fun t =>
+      !![1 + 1 / 10, Real.exp (-((1 / t) ^ 2 / 2)); Real.exp (-((1 / t) ^ 2 / 2)), 1 + 1 / 10]
+    let K' : Matrix (Fin 2) (Fin 2) ℝ := !![0, Real.exp (-(1 / 2)); Real.exp (-(1 / 2)), 0]
+    HasDerivAt (fun t => -s * (r ⬝ᵥ ((K t)⁻¹ *ᵥ r) + Real.log (K t).det))
+      (-s * (-(((K 1)⁻¹ *ᵥ r) ⬝ᵥ (K' *ᵥ ((K 1)⁻¹ *ᵥ r))) + Matrix.trace ((K 1)⁻¹ * K'))) 1 := by
+  intro K K'
+  have hu : ∀ t : ℝ, Function.update ![(7 : ℝ)] 0 t = ![t] := by
+    intro t; ext i; fin_cases i; simp
+  have hK : ∀ t, radialNoisy Kind.se 1 (Function.update ![(7 : ℝ)] 0 t) ![![0], ![1]] (fun _ => 1 / 10) = K t := by
+    intro t
+    rw [hu]
+    ext i j
+    fin_cases i <;> fin_cases j <;> simp [K, radialNoisy, kernel, phi, r2, two] <;> ring
+  have hK' : radialHparamGrad Kind.se 1 (Function.update ![(7 : ℝ)] 0 1) ![![0], ![1]] ((0 : Fin 1).val + 1)
+      = K' := by
+    rw [hu]
+    ext i j
+    fin_cases i <;> fin_cases j <;>
+      simp [K', radialHparamGrad, gradKernelH, hparamRowWith, hparamCoords, scaleBy, hphi, phi, r2, two]
+  have h := loglik_grad_radial_length Kind.se rfl (alpha := 1) zero_le_one ![(7 : ℝ)] ![![0], ![1]]
+    (ν := fun _ => 1 / 10) (fun _ => by norm_num) 0 (θ := 1) one_ne_zero s r
+  simpa only [hK, hK'] using h
 
 /-- **loglik_grad_radial_length, polynomial (GLS) mean**, `P` of full column rank -/
 theorem loglik_grad_radial_length_poly_mean (k : Kind) (hk : differentiable k = true) {n d p : ℕ} {alpha : ℝ}
